@@ -194,6 +194,15 @@ def check(prog: Program, res: Result, tier: str) -> None:
             elif full_bad:
                 res.ok("AL-ret", fi.short, "result is independent of the operands", where,
                        f"(sharing of {_fmt(full_bad)} originates in an already reported public callee)")
+            elif und and not s.unknown_calls and s_local.ret.kind == "obj" \
+                    and all(any(g.startswith("@") and g[1:] in fi.params() for g, _v in gs) for _p, gs in und):
+                # the only thing between the operand and the result is a function SUPPLIED BY THE CALLER: the property quantifies over
+                # every input, and a function that hands back (a view of) its argument (lambda v: v, np.real on real data, np.asarray)
+                # is one of them
+                fn_names = sorted({g[1:] for _p, gs in und for g, _v in gs if g.startswith("@")})
+                res.bad("AL-ret", fi.short, f"result shares storage with: {_fmt(und)}", where,
+                        f"whenever the caller's function `{', '.join(fn_names)}` returns (a view of) its argument (e.g. `lambda v: v`): "
+                        "what it returns is stored in the result without a copy")
             elif und:
                 res.undecided("AL-ret", fi.short, "result is independent of the operands", where,
                               f"possible sharing of {_fmt(und)} through an unmodelled call: {sorted(s.unknown_calls)[:4]}")
